@@ -1025,11 +1025,85 @@ def gen_order(seed):
     """C05: arrange chains with markers, row-preserving verbs, slice_head, window functions."""
     g = ProgGen(seed)
     rng = g.rng
+    if rng.random() < 0.22:
+        return _order_sandwich(g)
     h = g.add_table("t", cols=["k", "g", "x", "y", "f", "b", "s"])
     w = {"arrange": 4, "mutate_win": 3, "mutate": 1.5, "filter": 1.5, "slice_head": 1.5, "select": 0.8, "rename": 0.8, "alias": 0.4,
          "group_by": 0.7, "ungroup": 0.7, "mutate_agg": 0.7}
     h = g.chain(h, rng.randint(2, 7), w, depth=1, p_total=rng.choice([0.9, 0.9, 0.5]))
     probes = [s["out"] for s in g.steps if s["verb"] not in ("group_by", "ungroup")][-5:] or [h]
+    return g.finish(probes)
+
+
+def _order_sandwich(g):
+    """An ordered window function between a verb whose output order the engine does not keep (join, summarize,
+    union) and a verb that does not observe the order of its input (arrange, summarize, join): the values
+    must stay with their rows although no engine is obliged to keep the order around them."""
+    rng = g.rng
+    h = g.add_table("t", cols=["k", "g", "x", "y", "f", "b", "s"])
+    src = rng.choice(["join", "join", "summarize", "union"])
+    if src == "join":
+        kind, nr = g.tg.shape()
+        if kind == "tall":
+            kind, nr = "small_dups", 7
+        hr = g.add_table("u", cols=["k", "g", "x", "s"], shape=kind, nrows=nr)
+        for _ in range(4):
+            st = g.step_join(h, hr, how=rng.choice(["left", "inner", "full", "left"]))
+            if st is not None and g.rr.env[h].n * g.rr.env[hr].n <= 20000 and g.try_step(st):
+                h = st["out"]
+                break
+    elif src == "summarize":
+        st = g.step_group_by(h)
+        if st is not None and g.try_step(st):
+            h = st["out"]
+            st = g.step_summarize(h)
+            if st is not None and g.try_step(st):
+                h = st["out"]
+    else:
+        kind, nr = g.tg.shape()
+        if kind == "tall":
+            kind, nr = "small_dups", 7
+        hr = g.add_table("t2", cols=["k", "g", "x", "y", "f", "b", "s"], shape=kind, nrows=nr)
+        st = g.step_union(h, hr)
+        if g.try_step(st):
+            h = st["out"]
+    g.features.add("order_sandwich:" + src)
+    probes = []
+    for _ in range(rng.randint(1, 2)):
+        for _try in range(5):
+            sc = g.scope(h)
+            e, _fam = g.eg.window(sc, 1, total_key=g.total_key(h), pb=None, need_arrange=True)
+            st = {"in": h, "out": g.new_handle(), "verb": "mutate", "kw": [[g.fresh_name(g.rr.env[h], 0.1), e]]}
+            if g.try_step(st):
+                h = st["out"]
+                g.features.add("window")
+                break
+    probes.append(h)
+    sink = rng.choice(["arrange", "summarize", "join", "filter_arrange"])
+    if sink in ("arrange", "filter_arrange"):
+        if sink == "filter_arrange":
+            st = g.step_filter(h, 1)
+            if st is not None and g.try_step(st):
+                h = st["out"]
+        st = g.step_arrange(h, 0.9)
+        if st is not None and g.try_step(st):
+            h = st["out"]
+    elif sink == "summarize":
+        st = g.step_group_by(h)
+        if st is not None and g.try_step(st):
+            h = st["out"]
+            st = g.step_summarize(h)
+            if st is not None and g.try_step(st):
+                h = st["out"]
+    else:
+        hr2 = g.add_table("v", cols=["k", "y", "s"], shape="small_dups", nrows=5)
+        for _ in range(4):
+            st = g.step_join(h, hr2)
+            if st is not None and g.rr.env[h].n * g.rr.env[hr2].n <= 20000 and g.try_step(st):
+                h = st["out"]
+                break
+    probes.append(h)
+    probes = [p for p in dict.fromkeys(probes) if not g.rr.env[p].group] or [h]
     return g.finish(probes)
 
 
@@ -1724,6 +1798,94 @@ def gen_simple(seed):
 
 
 TYPE_WEIGHTS = {"mutate": 5, "mutate_agg": 1.5, "filter": 1.5, "select": 1, "rename": 0.7, "arrange": 1, "group_by": 1, "ungroup": 0.5, "summarize": 1.5, "alias": 0.3}
+
+
+def gen_collide(seed):
+    """Several columns with the same name inside one subquery: a column is overwritten one to three times while
+    references to the older versions are kept; a verb combination that needs a subquery follows, then
+    alias(keep_col_refs=True), then the older versions are used through their original references (filter,
+    mutate, arrange, group_by + summarize).  Inside the subquery the versions need distinct labels; outside
+    the visible columns keep their names."""
+    g = ProgGen(seed)
+    rng = g.rng
+    h0 = g.add_table("t", cols=["k", "g", "x", "y", "s", "b"])
+    h = h0
+    versions = {}  # name -> list of (handle, name) references, oldest first
+    for c in rng.sample(["x", "y", "g", "k"], rng.randint(1, 3)):
+        versions[c] = [(h0, c)]
+        for _ in range(rng.randint(1, 3)):
+            prev = versions[c][-1] if rng.random() < 0.7 else rng.choice(versions[c])
+            op = rng.choice(["add", "mul", "sub"])
+            e = fn(op, col(*prev), lit(rng.choice([1, 2, 3, -1])))
+            if rng.random() < 0.3:
+                e = fn("fill_null", e, lit(rng.choice([0, 7])))
+            st = {"in": h, "out": g.new_handle(), "verb": "mutate", "kw": [[c, e]]}
+            if g.try_step(st):
+                h = st["out"]
+                versions[c].append((h, c))
+    g.features.add("subquery_name_collision")
+    # a verb combination that forces a subquery at the alias
+    force = rng.choice(["slice", "window_filter", "window_summarize", "slice_summarize", "none"])
+    key = col(h0, "k") if "k" not in versions or len(versions["k"]) == 1 else col(*versions["k"][0])
+    if force in ("slice", "slice_summarize"):
+        st = {"in": h, "out": g.new_handle(), "verb": "arrange", "by": [{"e": key, "desc": rng.random() < 0.3, "nl": True}]}
+        if g.try_step(st):
+            h = st["out"]
+        st = {"in": h, "out": g.new_handle(), "verb": "slice_head", "n": rng.choice([2, 5, 40]), "offset": rng.choice([0, 0, 1])}
+        if g.try_step(st):
+            h = st["out"]
+    elif force.startswith("window"):
+        c = rng.choice(sorted(versions))
+        w = fn(rng.choice(["row_number", "rank"]), arr=[{"e": col(*rng.choice(versions[c])), "desc": False, "nl": True}, {"e": key, "desc": False, "nl": True}])
+        st = {"in": h, "out": g.new_handle(), "verb": "mutate", "kw": [["w", w]]}
+        if g.try_step(st):
+            h = st["out"]
+    st = {"in": h, "out": g.new_handle(), "verb": "alias", "keep": True}
+    if rng.random() < 0.3:
+        st["name"] = "sub"
+    if g.try_step(st):
+        h = st["out"]
+    probes = []
+    # uses of the versions after the alias
+    uses = rng.sample(["filter", "mutate", "arrange", "summarize", "mutate"], rng.randint(2, 4))
+    if force == "window_filter" and "filter" not in uses:
+        uses.insert(0, "filter")
+    for u in uses:
+        c = rng.choice(sorted(versions))
+        vs = versions[c]
+        if u == "filter":
+            preds = [fn(rng.choice(["gt", "le", "ne"]), col(*rng.choice(vs)), lit(rng.choice([0, 2, 5])))]
+            if force.startswith("window") and g.rr.env[h].has("w") if hasattr(g.rr.env[h], "has") else False:
+                preds.append(fn("ge", cname("w"), lit(1)))
+            st = {"in": h, "out": g.new_handle(), "verb": "filter", "preds": preds}
+        elif u == "mutate":
+            terms = [col(*v) for v in rng.sample(vs, min(len(vs), rng.randint(2, 3)))] + ([cname(c)] if rng.random() < 0.6 else [])
+            e = terms[0]
+            for t2 in terms[1:]:
+                e = fn(rng.choice(["add", "sub"]), e, t2)
+            st = {"in": h, "out": g.new_handle(), "verb": "mutate", "kw": [[rng.choice(["z", "w2", c]), e]]}
+        elif u == "arrange":
+            st = {"in": h, "out": g.new_handle(), "verb": "arrange", "by": [{"e": col(*rng.choice(vs)), "desc": rng.random() < 0.5, "nl": rng.random() < 0.5}, {"e": key, "desc": False, "nl": True}]}
+        else:
+            gb = {"in": h, "out": g.new_handle(), "verb": "group_by", "cols": [col(*rng.choice(vs))]}
+            if not g.try_step(gb):
+                continue
+            probes.append(h)
+            h = gb["out"]
+            c2 = rng.choice(sorted(versions))
+            st = {"in": h, "out": g.new_handle(), "verb": "summarize", "kw": [["n", fn("count_star")], ["sm", fn("sum", col(*rng.choice(versions[c2])))], ["mx", fn("max", col(*versions[c2][0]))]]}
+        if g.try_step(st):
+            h = st["out"]
+            if u == "summarize":
+                probes.append(h)
+                return g.finish(probes)
+        elif u == "summarize":
+            # the grouped table stays: leave it as it is
+            un = {"in": h, "out": g.new_handle(), "verb": "ungroup"}
+            if g.try_step(un):
+                h = un["out"]
+    probes.append(h)
+    return g.finish(probes)
 
 
 def gen_types(seed):
